@@ -22,7 +22,7 @@ def _symbolic(x):
         return True
     if isinstance(x, (list, tuple)):
         return any(_symbolic(e) for e in x)
-    if isinstance(x, slice):
+    if isinstance(x, (slice, SliceProxy)):
         return any(_symbolic(e) for e in (x.start, x.stop, x.step))
     return False
 
@@ -451,6 +451,9 @@ class SymNumpy:
         if axis not in (-1, 1) or any(a.ndim != 2 for a in arrs):
             raise Unsupported("2-D concatenate other than along the last axis")
         n = arrs[0].shape_[0]
+        for a in arrs[1:]:
+            if not same_dim(a.shape_[0], n) and not cur().branch(dim_term(a.shape_[0]) == dim_term(n), "concat-rows"):
+                raise ValueError("all the input array dimensions except for the concatenation axis must match exactly")
         order = ["elem", "bv", "int", "bool"]
         kind = min((a.kind for a in arrs), key=order.index)
         snaps = [a.snapshot() for a in arrs]
@@ -711,5 +714,59 @@ for _n, _f in list(SymNumpy.__dict__.items()):
         setattr(SymNumpy, _n, _wrap_dtype_fix(_f))
 SYMNP = SymNumpy()
 
-REBOUND_BUILTINS = {"len": sym_len, "int": SymIntType, "abs": sym_abs, "max": sym_max, "min": sym_min,
+import builtins as _builtins
+
+
+class SliceProxy:
+    """slice with symbolic components whose .indices() is CPython's PySlice_AdjustIndices as the spec function
+    `pyslice` (an assumed contract of the builtin, audited against slice.indices)"""
+
+    def __init__(self, start, stop, step):
+        self.start, self.stop, self.step = start, stop, step
+
+    def to_slice(self):
+        return _builtins.slice(self.start, self.stop, self.step)
+
+    def indices(self, n):
+        from .arr import pyslice
+        step = 1 if self.step is None else self.step
+        if is_sym(step):
+            if cur().branch(as_int_term(step) == 0, "slice-step-zero"):
+                raise ValueError("slice step cannot be zero")
+        elif step == 0:
+            raise ValueError("slice step cannot be zero")
+        first, count, step = pyslice(n, self.start, self.stop, step)
+        # CPython returns (start, stop, step) with the stop clamped, not the count: recompute stop
+        from .core import ite, smin, smax
+        pos = step > 0
+        if self.stop is None:
+            last = ite(pos, n, -1)
+        else:
+            last = ite(self.stop < 0, ite(pos, smax(self.stop + n, 0), smax(self.stop + n, -1)),
+                       ite(pos, smin(self.stop, n), smin(self.stop, n - 1)))
+        return first, last, step
+
+    def __repr__(self):
+        return f"SliceProxy({self.start}, {self.stop}, {self.step})"
+
+
+class _SliceMeta(type):
+    def __instancecheck__(cls, obj):
+        return isinstance(obj, (_builtins.slice, SliceProxy))
+
+    def __call__(cls, *a):
+        if len(a) == 1:
+            a = (None, a[0], None)
+        elif len(a) == 2:
+            a = (a[0], a[1], None)
+        if any(is_sym(x) for x in a):
+            return SliceProxy(*a)
+        return _builtins.slice(*a)
+
+
+class SymSliceType(metaclass=_SliceMeta):
+    """stands for the builtin `slice`"""
+
+
+REBOUND_BUILTINS = {"slice": SymSliceType, "len": sym_len, "int": SymIntType, "abs": sym_abs, "max": sym_max, "min": sym_min,
                     "sum": sym_sum, "range": sym_range}
